@@ -251,6 +251,69 @@ func specChain(c *Case, obs []CallObs) (string, string) {
 	return "", ""
 }
 
+// wfInput is one declaration on a Workflow node (AddInput / AddInputWithOptions / AddDependency /
+// AddEnd, or a static value: in = "static").
+type wfInput struct {
+	to, from, in string
+	idx          int
+	fields       []string
+}
+
+// conflictingInputs: declarations on one Workflow node that cannot all be applied, whatever the
+// order in which Compile visits the nodes (the declarations of one node are applied in call
+// order): the same control / data edge twice; mapping targets that overlap (the whole input
+// beside any other data declaration or static value, a target field named twice).
+// Returns the index of the later of two conflicting calls, or -1.
+func conflictingInputs(inputs []wfInput, statics map[string]wfInput) (int, string) {
+	type edge struct{ to, from string }
+	ctrl, data := map[edge]bool{}, map[edge]bool{}
+	for _, in := range inputs {
+		e := edge{in.to, in.from}
+		if in.in != "nodirect" {
+			if ctrl[e] {
+				return in.idx, "duplicate-edge"
+			}
+			ctrl[e] = true
+		}
+		if in.in != "dep" {
+			if data[e] {
+				return in.idx, "duplicate-edge"
+			}
+			data[e] = true
+		}
+	}
+	whole := map[string]bool{}
+	nData := map[string]int{}
+	fields := map[[2]string]bool{}
+	add := func(to string, fs []string) bool { // false: overlaps what the node already has
+		if whole[to] || (len(fs) == 0 && nData[to] > 0) {
+			return false
+		}
+		nData[to]++
+		if len(fs) == 0 {
+			whole[to] = true
+		}
+		for _, f := range fs {
+			if fields[[2]string{to, f}] {
+				return false
+			}
+			fields[[2]string{to, f}] = true
+		}
+		return true
+	}
+	for _, in := range inputs {
+		if in.in != "dep" && !add(in.to, in.fields) {
+			return in.idx, "overlapping-mapping-targets"
+		}
+	}
+	for _, st := range statics {
+		if !add(st.to, st.fields) {
+			return st.idx, "overlapping-mapping-targets"
+		}
+	}
+	return -1, ""
+}
+
 func specWorkflow(c *Case, obs []CallObs) (string, string) {
 	nodes := map[string]string{} // keys accepted by the graph
 	handle := map[string]bool{}  // keys a WorkflowNode handle exists for
@@ -260,21 +323,17 @@ func specWorkflow(c *Case, obs []CallObs) (string, string) {
 			violation, at = kind, i
 		}
 	}
-	type input struct {
-		to, from, in string
-		idx          int
-	}
 	type branch struct {
 		from string
 		ends []string
 		idx  int
 	}
-	var inputs []input
+	var inputs []wfInput
 	var branches []branch
-	var addEnds [][2]string
 	endFields := map[string]int{} // mapping targets of END declared through AddEnd / End().AddInput
 	dupEndField := -1
-	staticAfter := -1 // first SetStaticValue made after the successful Compile
+	statics := map[string]wfInput{} // node -> its static value (one field per node), set before the first successful Compile
+	staticAfter := -1               // first SetStaticValue made after the successful Compile
 	compiledAt := -1
 	for i := range c.Calls {
 		k := &c.Calls[i]
@@ -300,7 +359,7 @@ func specWorkflow(c *Case, obs []CallObs) (string, string) {
 				handle["end"] = true
 			}
 			if handle[k.To] {
-				inputs = append(inputs, input{k.To, k.From, k.In, i})
+				inputs = append(inputs, wfInput{k.To, k.From, k.In, i, k.Fields})
 				if k.To == "end" && k.In != "dep" && compiledAt < 0 {
 					for _, f := range k.Fields {
 						if endFields[f]++; endFields[f] > 1 && dupEndField < 0 {
@@ -316,12 +375,17 @@ func specWorkflow(c *Case, obs []CallObs) (string, string) {
 			if handle[k.To] && compiledAt >= 0 && staticAfter < 0 {
 				staticAfter = i
 			}
+			if handle[k.To] && compiledAt < 0 && len(k.Fields) > 0 {
+				if _, ok := statics[k.To]; !ok {
+					statics[k.To] = wfInput{k.To, "", "static", i, k.Fields[:1]}
+				}
+			}
 		case "addbranch":
 			branches = append(branches, branch{k.From, k.Ends, i})
 		case "addend":
 			// the deprecated AddEnd is End().AddInput (repair d4925e3): recorded, added by Compile
 			handle["end"] = true
-			inputs = append(inputs, input{"end", k.From, "normal", i})
+			inputs = append(inputs, wfInput{"end", k.From, "normal", i, k.Fields})
 			if compiledAt < 0 {
 				for _, f := range k.Fields {
 					if endFields[f]++; endFields[f] > 1 && dupEndField < 0 {
@@ -360,8 +424,10 @@ func specWorkflow(c *Case, obs []CallObs) (string, string) {
 			if dupEndField >= 0 {
 				return bad("duplicate-mapping-target", dupEndField)
 			}
+			if j, kind := conflictingInputs(inputs, statics); j >= 0 {
+				return bad(kind, j)
+			}
 			var ctrl [][2]string
-			ctrl = append(ctrl, addEnds...)
 			for _, in := range inputs {
 				if _, ok := nodes[in.from]; !ok && in.from != "start" {
 					return bad("unknown-input-source", in.idx)
